@@ -38,6 +38,14 @@ func (w *World) lemmaObligations(prop string) ([]*Obligation, []string) {
 			out = append(out, obls...)
 		}
 	}
+	if prop == "C01" || prop == "C02" {
+		// pure bit-vector fact behind the consecutive-numbers form of Destination.Insert
+		x := NewExec(w)
+		b0, n, m := x.sc.Fresh("b0", SBV64), x.sc.Fresh("n", SBV64), x.sc.Fresh("m", SBV64)
+		goal := T(SBool, "(= (exists ((j (_ BitVec 64))) (and (bvult j %s) (= (bvadd %s j) %s))) (bvult (bvsub %s %s) %s))", n.S, b0.S, m.S, m.S, b0.S, n.S)
+		out = append(out, &Obligation{Name: "lemma:contig-witness", Kind: "lemma", Func: "lemma contig-witness", Props: []string{prop}, Pos: x.sc.Pos(), Goal: goal,
+			Desc: "(exists j < n. b0+j == m) <==> (m-b0 < n) over 64-bit vectors", Script: x.sc})
+	}
 	return out, errs
 }
 
@@ -58,7 +66,9 @@ func (w *World) lemmaObl(sp *SpecFunc) (obls []*Obligation, err error) {
 	for _, p := range sp.Params {
 		var ty types.Type
 		srt := SInt
-		if p.Type != "mathint" {
+		if ps, ok := pseudoSorts[p.Type]; ok {
+			srt = ps
+		} else {
 			t, err := x.resolveType(env, p.Type)
 			if err != nil {
 				return nil, err
